@@ -634,6 +634,27 @@ def make_merge_cases(seed, count, start=0):
     return out
 
 
+def make_box_cases(seed, count, start=0):
+    import random
+    r = random.Random(seed)
+    out = []
+    for i in range(count):
+        n = r.randint(1, 3); L = ["case X%d" % (start + i)]
+        for oid, topo in enumerate(r.sample(["C", "NNC"], 2)):
+            iv = []
+            for _ in range(n):
+                lk = r.choice(["-inf", "[", "[", "("]); uk = r.choice(["+inf", "]", "]", ")"])
+                ln, un = r.randint(-3, 3), r.randint(-3, 3); ld, ud = r.choice([1, 2, 3, 4]), r.choice([1, 2, 3, 4])
+                if r.random() < 0.75 and ln * ud > un * ld: ln, ld, un, ud = un, ud, ln, ld
+                if r.random() < 0.3: un = ln
+                iv.append("%s %d %d %s %d %d" % (lk, ln, ld, uk, un, ud))
+            L.append("new %d %s %d box %s" % (oid, topo, n, " ".join(iv)))
+            if r.random() < 0.4: L.append("obs %d %s" % (oid, r.choice(G.OBS)))
+        L += ["stall", "end"]
+        out += L
+    return out
+
+
 def make_boxpair_cases(seed, count, ops, start=0):
     g = Lazy(seed, 3, big=0.0)
     out = []
